@@ -184,12 +184,15 @@ PreviewTuple(b, a) ==
        ELSE LET k == CHOOSE k \in C : TRUE IN <<k, Type(m[k]), Owner(m[k])>>
 
 C13_State(e, cs) ==
+  \* the statement speaks about OFFERED actions; previews of rule actions that are withheld in this
+  \* state are logged too but not judged
+  LET offered == SetOf(e.off) IN
   /\ Chk("C13", "capture preview differs from what the step removes",
          Len(e.pv) = Len(e.norep) /\
-         \A k \in 1..Len(e.norep) : e.pv[k] = PreviewTuple(e.b, e.norep[k]))
+         \A k \in 1..Len(e.norep) : e.norep[k] \in offered => e.pv[k] = PreviewTuple(e.b, e.norep[k]))
   /\ Chk("C13", "a step removes more than one piece",
          \A k \in 1..Len(e.norep) :
-            IsMove(e.norep[k]) =>
+            (IsMove(e.norep[k]) /\ e.norep[k] \in offered) =>
               Cardinality(CapturedSq(MoveRaw(e.b, e.norep[k][1], e.norep[k][2]))) <= 1)
   /\ CountIf(11, \E k \in 1..Len(e.pv) : e.pv[k] # <<>>)
 
@@ -296,7 +299,7 @@ C12_Trans(pre, a, n, e, cs) ==
 
 \* the preview logged in the parent for the action now played = what disappeared
 C13_Trans(pre, a, e) ==
-  (pre.ph = 1 /\ IsMove(a)) =>
+  (pre.ph = 1 /\ IsMove(a) /\ a \in pre.lo) =>
     LET m == MoveRaw(pre.b, a[1], a[2])
         gone == {k \in Sq : m[k] # 0 /\ e.b[k] = 0}
         idx == {k \in 1..Len(pre.ln) : pre.ln[k] = a}
@@ -385,7 +388,20 @@ TraceReobserve ==
         /\ stack' = base
   /\ l' = l + 1
 
-TraceNext == TraceReset \/ TraceAct \/ TraceThreadDigest \/ TraceReobserve
+\* A panic of the engine, caught by the harness.  It is a violation of the properties named in the
+\* event (C19 for every query / offered action on a reachable state, C15 for parsing, C08/C17 for
+\* from-scratch hashing and equality); for the other properties the rest of that game is simply not
+\* observed: the driver abandons it and the next event is a reset.
+TracePanic ==
+  /\ l <= Len(Rec) /\ Rec[l].ev = "panic"
+  /\ LET e == Rec[l] IN
+       Chk(IF PROP = "ALL" THEN e.props[1] ELSE PROP, "panic in engine call: " \o e.call,
+           ~(PROP = "ALL" \/ PROP \in {e.props[k] : k \in 1..Len(e.props)}))
+  /\ TLCSet(23, TLCGet(23) + 1)
+  /\ stack' = <<>>
+  /\ l' = l + 1
+
+TraceNext == TraceReset \/ TraceAct \/ TraceThreadDigest \/ TraceReobserve \/ TracePanic
 
 TraceSpec == TraceInit /\ [][TraceNext]_tvars
 
